@@ -27,7 +27,7 @@ class Ctx:
         self.tier = tier
         self.seed = seed
         self.t0 = time.time()
-        self.work = os.path.join(VERIF, "build", pid)
+        self.work = os.path.join(VERIF, "build", pid + os.environ.get("VERIF_WORKTAG", ""))
         if os.path.isdir(self.work):
             shutil.rmtree(self.work, ignore_errors=True)
         os.makedirs(self.work, exist_ok=True)
@@ -162,7 +162,7 @@ class Ctx:
             raise Infra("TLC generation failed on %s/%s (rc=%d):\n%s" % (module, cfg, r.rc, r.out[-6000:]))
         hs = []
         seen = set()
-        for m in re.finditer(r'^<<"GEN", "(.*)">>$', r.out, re.M):
+        for m in re.finditer(r'^<<\s*"GEN",\s*"((?:[^"\\\n]|\\.)*)"\s*>>', r.out, re.M):
             s = m.group(1)
             if s in seen:
                 continue
@@ -180,9 +180,15 @@ class Ctx:
         j = list(jvm)
         if dfs:
             j.append("-Dtlc2.tool.queue.IStateQueue=StateDeque")
-        r = self._tlc(module, os.path.join(SPEC, cfg), 1, env=e, timeout=timeout, jvm=j,
-                      tag="val-" + os.path.basename(trace_path))
-        r.parse()
+        for attempt in range(3):
+            r = self._tlc(module, os.path.join(SPEC, cfg), 1, env=e, timeout=timeout, jvm=j,
+                          tag="val-" + os.path.basename(trace_path))
+            r.parse()
+            decided = (r.rc == 0 and "No error has been found" in r.out) or \
+                re.search(r"Postcondition TraceAccepted .* is false|Invariant (\S+) is violated|Action property (\S+) is violated", r.out)
+            if decided:
+                break
+            time.sleep(2 + 3 * attempt)     # JVM start-up / resource failure under load: try again
         v = Validation()
         v.total = sum(1 for _ in open(trace_path))
         v.out = r.out
@@ -197,7 +203,10 @@ class Ctx:
             v.accepted = False
             v.violated = r.violated
         else:
-            raise Infra("TLC trace validation infrastructure failure (rc=%d) on %s:\n%s" % (r.rc, trace_path, r.out[-5000:]))
+            dump = self.save("infra-%s.txt" % os.path.basename(trace_path), r.out)
+            errs = [x for x in r.out.splitlines() if "rror" in x or "xception" in x][:6]
+            raise Infra("TLC trace validation infrastructure failure (rc=%d) on %s (full output %s):\n%s" % (
+                r.rc, trace_path, dump, "\n".join(errs)))
         return v
 
     def exec_validate(self, exe, histories, to_lines, module, cfg, nshards=None, label="gen",
@@ -343,7 +352,7 @@ class Ctx:
             return 124, so, se + "\nTIMEOUT"
 
     def save(self, name, text):
-        d = os.path.join(VERIF, "build", "replay", self.pid)
+        d = os.path.join(VERIF, "build", "replay", self.pid + os.environ.get("VERIF_WORKTAG", ""))
         os.makedirs(d, exist_ok=True)
         path = os.path.join(d, name)
         with open(path, "w") as f:
@@ -351,7 +360,7 @@ class Ctx:
         return path
 
     def save_file(self, src, name=None):
-        d = os.path.join(VERIF, "build", "replay", self.pid)
+        d = os.path.join(VERIF, "build", "replay", self.pid + os.environ.get("VERIF_WORKTAG", ""))
         os.makedirs(d, exist_ok=True)
         path = os.path.join(d, name or os.path.basename(src))
         shutil.copyfile(src, path)
@@ -382,8 +391,9 @@ class Ctx:
               "assumptions": self.assumptions, "wall_s": round(time.time() - self.t0, 1),
               "violations": len(self.violations), "known_findings_reconfirmed": [k for k, _ in self.known_hits],
               "notes": self.notes}
-        os.makedirs(os.path.join(VERIF, "evidence"), exist_ok=True)
-        with open(os.path.join(VERIF, "evidence", self.pid + ".json"), "w") as f:
+        evdir = os.environ.get("VERIF_EVIDENCE", os.path.join(VERIF, "evidence"))
+        os.makedirs(evdir, exist_ok=True)
+        with open(os.path.join(evdir, self.pid + ".json"), "w") as f:
             json.dump(ev, f, indent=1, sort_keys=True)
         for k, what in self.known_hits:
             print("KNOWN-FINDING: property=%s %s %s" % (self.pid, k, what), flush=True)
@@ -420,6 +430,10 @@ class TlcOut:
         m = re.findall(r"(\d+) states generated, (\d+) distinct states found", o)
         if m:
             self.generated, self.distinct = int(m[-1][0]), int(m[-1][1])
+        if not m:
+            ms = re.search(r"The number of states generated: (\d+)", o)
+            if ms:      # simulation mode: states visited by random walks (not deduplicated)
+                self.generated = self.distinct = int(ms.group(1))
         m = re.search(r"depth of the complete state graph search is (\d+)", o)
         if m:
             self.depth = int(m.group(1))
